@@ -4,7 +4,11 @@ package c17
 
 import (
 	"fmt"
+	"github.com/saucelabs/forwarder/bind"
+	"github.com/saucelabs/forwarder/utils/cobrautil"
+	"github.com/spf13/cobra"
 	"os"
+	"path/filepath"
 	"regexp"
 	"strings"
 	"testing"
@@ -40,7 +44,7 @@ func newMatcher(x *explore.X, items []ruleset.RegexpListItem, strs []string) (m 
 
 func TestC17(t *testing.T) {
 	s := explore.NewSuite(t, "C17", "exploration",
-		"every ordered list of <=L rules (L=2 quick, 3 thorough; plus L=4 over a 6-rule sub-alphabet in thorough) drawn from 25 regular expressions (incl. \\Q quoting, terminated and not, and a rule beginning with a literal dash) x {include, exclude}, each evaluated on 29 host strings through ruleset.ParseRegexpListItem + NewRegexpMatcherFromList (+Inverse) and compared with a reference that evaluates every rule on its own with package regexp; plus (list-lengths) every list of 1-40 include rules and 0-40 exclude rules, each rule matching exactly one host, checked on 42 hosts; plus (concurrent-matchers, Engine T) one matcher and its inverse used by two threads at once for 4x4 hosts over 3 lists, ruleset/regexp.go rebuilt with a scheduling point before every statement, every interleaving with at most 2 (quick) / 3 (thorough) preemptions, verdicts of the two callers and of every later sequential caller compared with the per-rule reference; plus (aged-matcher) every include rule x optional exclude rule on ONE matcher: the host alphabet, then N distinct other hosts (N in {300, 1100}, thorough also 4200 and 70000), then the alphabet forwards and backwards, every answer and its inverse compared with the memoryless reference; non-trivial = the list has at least one include rule so a matcher is built and compared")
+		"every ordered list of <=L rules (L=2 quick, 3 thorough; plus L=4 over a 6-rule sub-alphabet in thorough) drawn from 25 regular expressions (incl. \\Q quoting, terminated and not, and a rule beginning with a literal dash) x {include, exclude}, each evaluated on 29 host strings through ruleset.ParseRegexpListItem + NewRegexpMatcherFromList (+Inverse) and compared with a reference that evaluates every rule on its own with package regexp; plus (list-lengths) every list of 1-40 include rules and 0-40 exclude rules, each rule matching exactly one host, checked on 42 hosts; plus (concurrent-matchers, Engine T) one matcher and its inverse used by two threads at once for 4x4 hosts over 3 lists, ruleset/regexp.go rebuilt with a scheduling point before every statement, every interleaving with at most 2 (quick) / 3 (thorough) preemptions, verdicts of the two callers and of every later sequential caller compared with the per-rule reference; plus (aged-matcher) every include rule x optional exclude rule on ONE matcher: the host alphabet, then N distinct other hosts (N in {300, 1100}, thorough also 4200 and 70000), then the alphabet forwards and backwards, every answer and its inverse compared with the memoryless reference; plus (rules-from-every-source) lists of 1-3 rules out of 5 (three of them containing a comma) given as one CSV flag value, as repeated flags and as a YAML list in a configuration file bound through cobrautil: the rules that arrive are the rules that were written; non-trivial = the list has at least one include rule so a matcher is built and compared")
 	s.Assume = []string{"package regexp (used for the per-rule reference) is trusted"}
 	compiled := make([]*regexp.Regexp, len(rules))
 	for i, r := range rules {
@@ -253,6 +257,75 @@ func TestC17(t *testing.T) {
 			}
 		}
 		x.Outcome(fmt.Sprintf("%v/%v", want(hosts[0]), exc >= 0))
+	}})
+	// rules-from-every-source: the same list of rules - including rules that contain a comma, as every {m,n}
+	// repetition does - given on the command line (one CSV-quoted flag value), as repeated flags and as a YAML list in a
+	// configuration file (bound through cobrautil exactly as the commands do it) yields the same rules, each taken
+	// on its own.
+	commaRules := []string{`^ad[0-9]{1,3}\.test$`, `-^cdn[a-c]{2,}\.test$`, `^plain\.test$`, `x{2}`, `-^a,b$`}
+	s.Add(explore.Scenario{Name: "rules-from-every-source", Run: func(x *explore.X) {
+		n := 1 + x.ChooseFree("rules-1", 3)
+		var list []string
+		for i := 0; i < n; i++ {
+			list = append(list, commaRules[x.ChooseFree(fmt.Sprintf("rule%d", i), len(commaRules))])
+		}
+		source := []string{"one-flag-csv", "repeated-flags", "yaml-config-file"}[x.ChooseFree("source", 3)]
+		flagName := []string{"deny-domains", "direct-domains"}[x.ChooseFree("flag", 2)]
+		var got []ruleset.RegexpListItem
+		cmd := &cobra.Command{Use: "t", RunE: func(*cobra.Command, []string) error { return nil }}
+		if flagName == "deny-domains" {
+			bind.DenyDomains(cmd.Flags(), &got)
+		} else {
+			bind.DirectDomains(cmd.Flags(), &got)
+		}
+		cmd.Flags().String("config-file", "", "")
+		var args []string
+		switch source {
+		case "one-flag-csv":
+			var q []string
+			for _, r := range list {
+				q = append(q, `"`+strings.ReplaceAll(r, `"`, `""`)+`"`)
+			}
+			args = []string{"--" + flagName, strings.Join(q, ",")}
+		case "repeated-flags":
+			for _, r := range list {
+				args = append(args, "--"+flagName, `"`+r+`"`)
+			}
+		case "yaml-config-file":
+			dir, err := os.MkdirTemp("", "c17cfg")
+			if err != nil {
+				x.Failf("harness/config-file", "%v", err)
+				return
+			}
+			defer os.RemoveAll(dir)
+			f := filepath.Join(dir, "config.yaml")
+			var sb strings.Builder
+			sb.WriteString(flagName + ":\n")
+			for _, r := range list {
+				sb.WriteString("  - '" + strings.ReplaceAll(r, "'", "''") + "'\n")
+			}
+			if err := os.WriteFile(f, []byte(sb.String()), 0o600); err != nil {
+				x.Failf("harness/config-file", "%v", err)
+				return
+			}
+			args = []string{"--config-file", f}
+		}
+		cmd.SetArgs(args)
+		cmd.PreRunE = func(c *cobra.Command, _ []string) error { return cobrautil.BindAll(c, "VERIFTEST", "config-file") }
+		cmd.SilenceErrors, cmd.SilenceUsage = true, true
+		x.Check()
+		if err := cmd.Execute(); err != nil {
+			x.Failf("rules-from-source/rejected", "rules %q given as %s: %v", list, source, err)
+			return
+		}
+		var gs []string
+		for _, it := range got {
+			gs = append(gs, it.String())
+		}
+		if strings.Join(gs, "\x00") != strings.Join(list, "\x00") {
+			x.Failf("rules-from-source/differ", "rules %q given as %s (%s) arrive as %q", list, source, flagName, gs)
+		}
+		x.Outcome(fmt.Sprintf("%s/%d", source, n))
 	}})
 	s.Add(explore.Scenario{Name: "concurrent-matchers", Remote: true, MaxDev: map[string]int{"quick": 2, "thorough": 3},
 		Run: func(x *explore.X) { concurrentMatchers(t, x) }})
